@@ -4,6 +4,10 @@ import re
 # property id -> short description of the cone (the tags on contract clauses decide membership)
 PROPS = {
     'C05': 'smallest sufficient version; over-capacity is an error',
+    'C06': 'data codewords follow the ISO bit stream',
+    'C08': 'masking applies exactly the ISO pattern, only to the encoding region',
+    'C09': 'automatic mode is the most compact mode',
+    'C14': 'building is a pure function of input and options',
 }
 
 
@@ -48,15 +52,31 @@ def assumptions(b, pid):
 
 MANIFEST_META = {
     'C05': {
-        'text': 'Verus proves, for every usize length, every mode and level, that the real Version::get returns the smallest version whose ISO capacity (4 + count bits + payload bits <= 8 x data codewords, capacity table taken from ISO Table 9 independently of the crate) holds the input, and None exactly when version 40 does not; hardcode::data_codewords/cci_bits/data_bits are proved equal to the ISO tables.',
-        'note': 'Trusted: Verus/Z3, extraction rules, the ISO model. QRCode::new (forced-version comparison, error selection) and encode::add_terminator (no wrapped subtraction) are not yet under contract: see coverage.assumed_contracts_not_proved in the evidence.',
+        'text': 'Verus proves, for every usize length, every mode and level, that the real Version::get returns the smallest version whose ISO capacity (4 + count bits + payload bits <= 8 x data codewords; capacity from ISO Table 9 independently of the crate) holds the input and None exactly when version 40 does not; that QRCode::new / QRBuilder::build use a forced version iff it is at least that large and otherwise return exactly the two documented errors; that add_terminator never subtracts below zero (its precondition len <= data_bits is discharged at the call site from the capacity condition).',
+        'note': 'Trusted: Verus/Z3, extraction rules, the ISO model. compact::push_bits is an ASSUMED contract (listed in evidence); placement::create_matrix is assumed for the reported fields.',
+    },
+    'C06': {
+        'text': 'Verus proves that encode::encode returns a buffer whose first iso_data_codewords(v,l) bytes are, bit for bit, the ISO 7.4 stream (mode indicator, count of the prescribed width, 3-digit/2-char/8-bit packing, terminator min(4,room), zero fill to the byte boundary, 0xEC/0x11 alternation) for every input accepted by the mode, every version and level; CompactQR is verified against an abstract bit-sequence view with the invariant that bits past len are zero.',
+        'note': 'compact::push_bits (the unaligned multi-bit push) is an ASSUMED contract: its body is not yet verified; push_u8, push_u8_slice, fill, increase_len and all encoders are proved against it.',
+    },
+    'C08': {
+        'text': 'Verus proves for each of the real mask functions 0,1,2,3,4,7 and the dispatcher that, for every matrix size up to 177 and every matrix content, exactly the Data-typed modules selected by ISO Table 10 pattern k toggle their value bit and nothing else (types, other modules, meta fields, array tail) changes; the offset tables of patterns 5 and 6 are proved to be exactly the ISO residues.',
+        'note': 'The shared two-phase sweep datamasking::mask_5_6 (patterns 5 and 6) is an ASSUMED contract. Mask/format agreement (place_on_matrix) is not yet under contract.',
+    },
+    'C09': {
+        'text': 'Verus proves best_encoding(input) == Numeric iff all bytes are digits (incl. empty), Alphanumeric iff all are in the 45-character set (written out from ISO Table 5) and not all digits, Byte otherwise, for slices of any length; ascii_to_alphanumeric/ascii_to_digit are proved total on the chosen mode (their panic arms are unreachable) and QRCode::new uses forced.unwrap_or(best).',
+        'note': 'Trusted: Verus/Z3, extraction rules (P1 slice loops, H1 hoisting of the two nested fns).',
+    },
+    'C14': {
+        'category': 'other',
+        'text': 'Contract part: every QRBuilder setter is proved to write exactly its field and keep all others (last value wins); build(&self) cannot change the builder and its result satisfies a postcondition over the final field values only. Structural part: a scan of /repo/src for static mut / interior mutability / globals / time / randomness must be empty. No schedule exploration exists in this technique family.',
+        'note': 'Functional determinism of the matrix (result == spec function of the options) needs the placement pipeline under contract (not yet); renderers are outside reach (format!/resvg).',
     },
 }
 
 _NYB = 'not yet built in this round (work in progress; will be claimed or given a final reason)'
 NOT_APPLICABLE = {
-    'C01': _NYB, 'C02': _NYB, 'C03': _NYB, 'C04': _NYB, 'C06': _NYB, 'C07': _NYB, 'C08': _NYB, 'C09': _NYB,
-    'C10': _NYB, 'C11': _NYB, 'C14': _NYB, 'C15': _NYB, 'C17': _NYB, 'C18': _NYB,
+    'C01': _NYB, 'C02': _NYB, 'C03': _NYB, 'C04': _NYB, 'C07': _NYB,     'C10': _NYB, 'C11': _NYB, 'C15': _NYB, 'C17': _NYB, 'C18': _NYB,
     'C12': 'SVG text is built with format!/String::push_str/join and function-pointer calls; Verus has no format!/string-content reasoning and Kani on String code here is prohibitive (4 symbolic bytes > 20 min): no contract within reach can express it',
     'C13': 'pixels come out of usvg/resvg/tiny-skia/png (external crates, floating-point rasterisation); no repository function whose contract could state them and no verifier here reaches those crates',
     'C16': 'terminal renderer builds a String of multi-byte chars via push/push_str/format!; same limits as C12',
